@@ -129,8 +129,8 @@ func (ex *Exec) posStr(p token.Pos) string {
 	}
 	ps := ex.fset.Position(p)
 	f := ps.Filename
-	if i := strings.Index(f, "/repo/"); i >= 0 {
-		f = f[i+6:]
+	if strings.HasPrefix(f, repoDir+"/") {
+		f = f[len(repoDir)+1:]
 	} else if i := strings.Index(f, "/src/"); i >= 0 {
 		f = f[i+5:]
 	}
